@@ -42,8 +42,14 @@ var procStart = time.Now()
 // pastShare reports whether this process has used more than the given share of
 // the soft time budget (VERIF_DEADLINE). The rapid properties of this package
 // run one after the other; each stops drawing new cases at its share so that
-// the later ones are not starved (TestMutated: 45%, TestShapes: the rest).
-func pastShare(frac float64) bool {
+// the later ones are not starved (TestMutated: 40%, TestShapes: up to 85%; the rest is left for the case in flight and the corpus).
+func pastShare(frac float64, done *int) bool {
+	// every property evaluates at least one case, however loaded the machine is
+	if *done == 0 {
+		*done++
+		return false
+	}
+	*done++
 	d := os.Getenv("VERIF_DEADLINE")
 	if d == "" {
 		return false
@@ -660,6 +666,8 @@ func hotRanges(pkgs []map[string]string) ([]map[string][]byteRange, error) {
 	return out, err
 }
 
+var mutatedCases, shapeCases int
+
 func TestMutated(t *testing.T) {
 	ev.Rule(rule)
 	defer flushStats()
@@ -687,7 +695,7 @@ func TestMutated(t *testing.T) {
 	ev.Assume("srcmut variants are equivalent to their originals (verified by srcmut's own test: equal go/types fingerprints); a variant that no longer type-checks while the original does is discarded and counted as gen_invalid")
 	ev.Assume("type-checking of patched packages uses go/types with the source importer; a package whose ORIGINAL does not type-check that way (sibling testdata imports, vendored paths, deliberate errors) is inconclusive for the type-check clause")
 	ev.Check(t, "TestMutated", func(rt *rapid.T) {
-		if pastShare(0.45) {
+		if pastShare(0.40, &mutatedCases) {
 			return
 		}
 		var dirsDrawn []string
